@@ -297,7 +297,8 @@ def warm_handler_listing(k_e: int, k_i: int, w: int, s1: int, s2: int, nseg: int
     """
     pre: 0 <= k_e < NKINDS and 0 <= k_i < NKINDS and 0 <= w < NWARM
     pre: 0 <= s1 < NW2 and 0 <= s2 < NW2 and 1 <= nseg <= 2
-    pre: (not QUICK) or (k_i == 1 and k_e == 1 and not slash)
+    pre: k_i == 1 and (nseg == 1 or s1 < 4)
+    pre: (k_e == 1 and not slash) if QUICK else (k_e == 1 or k_e == 5 or k_e == 6 or k_e == 9)
     post: _
     """
     return V(_warm_handler(k_e, k_i, w, s1, s2, nseg, slash, True))
@@ -307,7 +308,8 @@ def warm_handler_plain(k_e: int, k_i: int, w: int, s1: int, s2: int, nseg: int, 
     """
     pre: 0 <= k_e < NKINDS and 0 <= k_i < NKINDS and 0 <= w < NWARM
     pre: 0 <= s1 < NW2 and 0 <= s2 < NW2 and 1 <= nseg <= 2
-    pre: (not QUICK) or (k_i == 1 and k_e == 1 and not slash)
+    pre: k_i == 1 and (nseg == 1 or s1 < 4)
+    pre: (k_e == 1 and not slash) if QUICK else (k_e == 1 or k_e == 5 or k_e == 6 or k_e == 9)
     post: _
     """
     return V(_warm_handler(k_e, k_i, w, s1, s2, nseg, slash, False))
@@ -507,12 +509,12 @@ OBLIGATIONS = [
     Ob("warm_handler_listing", warm_handler_listing, quick=1000, thorough=3000,
        symbolic="a first request out of 5 (quick) / 10 (root itself, '/d/..', a file, a listing, a refused escape, ...), then a second "
                 "request of 1-2 segments over 6 (quick) / 12 names incl. '..', siblings and a file directly in the root's parent -- both "
-                "served by the same handler object; thorough: also the kinds of 2 tree entries and the trailing slash",
+                "served by the same handler object (two-segment paths start with one of '..', 'sec', 'SECRET-top', 'root-x'); thorough: also 4 kinds of the symbolic entry and the trailing slash",
        functions=FN, stubs=["ModelFS"]),
     Ob("warm_handler_plain", warm_handler_plain, quick=1000, thorough=3000,
        symbolic="a first request out of 5 (quick) / 10 (root itself, '/d/..', a file, a listing, a refused escape, ...), then a second "
                 "request of 1-2 segments over 6 (quick) / 12 names incl. '..', siblings and a file directly in the root's parent -- both "
-                "served by the same handler object; thorough: also the kinds of 2 tree entries and the trailing slash",
+                "served by the same handler object (two-segment paths start with one of '..', 'sec', 'SECRET-top', 'root-x'); thorough: also 4 kinds of the symbolic entry and the trailing slash",
        functions=FN, stubs=["ModelFS"]),
     Ob("reach", reach, quick=200, thorough=600,
        symbolic="file name index (16 names with space, non-ASCII, '?', '#', '%', ';', nested directory), literal or pct-encoded spelling",
